@@ -345,4 +345,16 @@ def r8(ctx):
 EXPLANATION = EXPLANATION + ' (R8) every message handed to the application is removed from the hand-off queue on every way out of the hand-off, also when the handler raises (at most once to the application, not only into the queue).'
 EXPLANATION = EXPLANATION + ' (R6) datagram and message numbers reach the duplicate test as they were written: header and per-message framing agree between writer and reader (shared C09.R1, C09.R2). (R7) BitField.insert partitions the output of SeqNum.diff: diff is antisymmetric on the ring with range [-T, T] and the comparisons are defined through it (shared C08.R2, C08.R3).'
 
-RULES = [("C04.R1", r1), ("C04.R2", r2), ("C04.R3", r3), ("C04.R4", r4), ("C04.R5", r_enum), ("C04.R6", r_shared_r6), ("C04.R7", r_shared_r7), ("C04.R8", r8)]
+def r_shared_r9(ctx):
+    """the reserved number 0 ("nothing received yet" in BitField.insert) is never produced by sequence arithmetic: a sender that
+    numbers a datagram or message 0 puts the receiver's window back into its first-insert state, which adopts whatever arrives
+    next without a duplicate test (shared C08.R1: the wrapped result of SeqNum.__add__ / __sub__ lies in [1, M])"""
+    from . import c08 as _m
+    from .c02 import _Sub
+    _m.r1(_Sub(ctx, "C04.R9"))
+
+
+EXPLANATION = EXPLANATION + (" (R9) sequence arithmetic never produces the reserved number 0 (shared C08.R1): BitField.insert reads a current number of 0 as "
+                             "'nothing received yet' and adopts the next number without a duplicate test, so a sender that wraps onto 0 re-opens the window for replays.")
+
+RULES = [("C04.R1", r1), ("C04.R2", r2), ("C04.R3", r3), ("C04.R4", r4), ("C04.R5", r_enum), ("C04.R6", r_shared_r6), ("C04.R7", r_shared_r7), ("C04.R8", r8), ("C04.R9", r_shared_r9)]
